@@ -7,6 +7,7 @@ Unrelated == {"x1", "x2"}
 RowUniverse == (AllAgents \cup Unrelated) \X (1..2)
 ObsUniverse == {<<1, "t1", "s1">>, <<2, "t1", "s1">>}
 MCConfigs ==
-  {[agents |-> AllAgents, imported |-> imp, targets |-> {"t1"}, rows |-> rows, obs |-> obs, nsteps |-> 2] :
-     imp \in {{"t1"}, {"s1"}, {"t1", "s1"}}, rows \in SUBSET RowUniverse, obs \in SUBSET ObsUniverse}
+  {[agents |-> AllAgents, imported |-> imp, targets |-> {"t1"}, rows |-> rows, obs |-> obs, nsteps |-> 2, born |-> born] :
+     imp \in {{"t1"}, {"s1"}, {"t1", "s1"}}, rows \in SUBSET RowUniverse, obs \in SUBSET ObsUniverse,
+     born \in {[a \in AllAgents |-> 0], [a \in AllAgents |-> IF a = "t1" THEN 2 ELSE 0]}}
 =============================================================================
